@@ -64,6 +64,9 @@ func regenSpec(ops, defs uint) []byte {
 
 type regenStep struct {
 	Kind  string `json:"kind"` // server | client | model | edit-configure | add-file | edit-generated
+	// per-history options of the server runs
+	Config bool `json:"layout_config_file,omitempty"`     // -C layout.yml (the default layout in the documented format)
+	Impl   bool `json:"implementation_package,omitempty"` // --implementation-package x/impl
 	Ops   uint   `json:"ops,omitempty"`
 	Defs  uint   `json:"defs,omitempty"`
 	Regen bool   `json:"regenerate_configure,omitempty"`
@@ -76,6 +79,12 @@ func genArgs(st regenStep, specFile string) []string {
 		a := []string{"generate", "server", "-q", "-f", specFile, "-t", "target", "-A", "regen"}
 		if st.Regen {
 			a = append(a, "--regenerate-configureapi")
+		}
+		if st.Config {
+			a = append(a, "-C", "layout.yml")
+		}
+		if st.Impl {
+			a = append(a, "--implementation-package", "x/impl")
 		}
 		return a
 	case "client":
@@ -91,6 +100,11 @@ func runGen(swagger, root string, st regenStep) RunResult {
 	spec := filepath.Join(root, "spec.json")
 	_ = os.WriteFile(spec, regenSpec(st.Ops, st.Defs), 0o644)
 	_ = os.MkdirAll(filepath.Join(root, "target"), 0o755) // the CLI wants the target directory to exist
+	if st.Config {
+		if yml, err := DefaultLayoutYAML(); err == nil {
+			_ = os.WriteFile(filepath.Join(root, "layout.yml"), yml, 0o644)
+		}
+	}
 	return Run(root, 120*time.Second, swagger, genArgs(st, "spec.json")...)
 }
 
@@ -137,6 +151,7 @@ func CheckC11(run *ev.Run) {
 		modelFS := [][2]string{}
 		userFiles := map[string]string{}
 		ops, defs := uint(r.Intn(8)), uint(r.Intn(4))
+		useConfig, useImpl := h%4 == 1, h%4 == 3
 		fail := func(key, what string, extra map[string]interface{}) {
 			m := map[string]interface{}{"history": hist, "how": "run the listed steps with `swagger generate ... -t target` in one scratch module (spec from regenSpec(ops, defs)); see harness/internal/genlab/check11.go"}
 			for k, v := range extra {
@@ -155,7 +170,7 @@ func CheckC11(run *ev.Run) {
 				if r.Chance(1, 3) {
 					defs = uint(r.Intn(4))
 				}
-				step = regenStep{Kind: "server", Ops: ops, Defs: defs, Regen: s > 0 && r.Chance(1, 4)}
+				step = regenStep{Kind: "server", Ops: ops, Defs: defs, Regen: s > 0 && r.Chance(1, 4), Config: useConfig, Impl: useImpl}
 			case k < 5:
 				step = regenStep{Kind: "client", Ops: ops, Defs: defs}
 			case k < 6:
@@ -187,7 +202,8 @@ func CheckC11(run *ev.Run) {
 				}
 				var ws [][]interface{}
 				for _, p := range SortedKeys(ft) {
-					skip := isConfigure(p) && !step.Regen && step.Kind == "server"
+					// a layout given with -C carries its own skip_exists flag, which the command-line switch does not override
+					skip := isConfigure(p) && (!step.Regen || step.Config) && step.Kind == "server" && !step.Impl
 					ws = append(ws, []interface{}{p, ft[p], skip})
 				}
 				modelOp = map[string]interface{}{"run": ws}
@@ -205,7 +221,7 @@ func CheckC11(run *ev.Run) {
 				}
 				for p, hsh := range ft {
 					_, existed := before[p]
-					if isConfigure(p) && existed && !(step.Regen && step.Kind == "server") {
+					if isConfigure(p) && existed && !(step.Regen && !step.Config && step.Kind == "server") {
 						if after[p] != before[p] {
 							fail("configure-rewritten", "the configure file was rewritten although regeneration was not requested", map[string]interface{}{"file": p})
 						}
@@ -277,7 +293,7 @@ func CheckC11(run *ev.Run) {
 					existedCfg = true
 				}
 			}
-			run.Case(fmt.Sprintf("%s|regen=%v|cfg-existed=%v|ops=%d|defs=%d", step.Kind, step.Regen, existedCfg, step.Ops, step.Defs))
+			run.Case(fmt.Sprintf("%s|regen=%v|cfg-existed=%v|ops=%d|defs=%d|-C=%v|impl=%v", step.Kind, step.Regen, existedCfg, step.Ops, step.Defs, step.Config, step.Impl))
 			if TreeHash(actual) != TreeHash(pred) {
 				var diffs []string
 				for _, p := range SortedKeys(actual) {
